@@ -1,13 +1,16 @@
 \* C07 registry operations: 3 connections x 2 clients; accept, first login, correct login
 \* (control / tunnel type; includes re-authentication under a second id), close, kick,
-\* heartbeat, heartbeat-timeout sweep, unregister-for-tunnel.
+\* heartbeat, heartbeat-timeout sweep, unregister-for-tunnel, and Knock = a handshake that fails
+\* (registered but unauthenticated control connections, which the sweep must evict completely too).
 \* INV = C07Inv C07One (Fixes = {"oneIdentity"}) or C07InvMasked C07OneMasked (Fixes = {}: the code before patches/C07-1).
 CONSTANTS
   Conn <- Conn3
   Client <- Client2
   MaxNonce = 3
   MaxFail = 3
-  Ops = {"Accept", "FirstLogin", "Login", "Close", "Kick", "Heartbeat", "Tick", "Unregister"}
+  MaxCtl = 0
+  Faults = {}
+  Ops = {"Accept", "FirstLogin", "Login", "Knock", "Close", "Kick", "Heartbeat", "Tick", "Unregister"}
   Types = {"control", "tunnel"}
   PreAccept = FALSE
   Fixes = @@FIXES@@
